@@ -19,14 +19,46 @@ def f32s(bits):
     return np.array([bits], dtype="<u4").view("<f4")[0]
 
 
+# memory layout given to every array handed to a constructor by build(): None = a fresh C-contiguous little-endian
+# array; otherwise an array with the same shape, dtype kind and VALUES but another layout in memory
+LAYOUT = None
+LAYOUTS = ("F", "strided", "reversed", "bigendian", "readonly", "offset")
+
+
+def lay(a):
+    if LAYOUT is None or not isinstance(a, np.ndarray) or a.dtype == object or a.ndim == 0:
+        return a
+    if LAYOUT == "F":                               # column-major (what a transposed view of a C array is)
+        return np.ascontiguousarray(a.T).T if a.ndim >= 2 else a
+    if LAYOUT == "strided":                         # every second element of a larger buffer
+        big = np.zeros(tuple(2 * s for s in a.shape), a.dtype)
+        view = big[tuple(slice(None, None, 2) for _ in a.shape)]
+        view[...] = a
+        return view
+    if LAYOUT == "reversed":                        # negative strides
+        rev = tuple(slice(None, None, -1) for _ in a.shape)
+        return np.ascontiguousarray(a[rev])[rev]
+    if LAYOUT == "bigendian":                       # same numbers, other byte order in memory
+        return a.astype(a.dtype.newbyteorder(">"))
+    if LAYOUT == "readonly":
+        b = a.copy()
+        b.flags.writeable = False
+        return b
+    if LAYOUT == "offset":                          # unaligned start inside a byte buffer
+        raw = bytearray(1 + a.nbytes)
+        raw[1:] = np.ascontiguousarray(a).tobytes()
+        return np.frombuffer(raw, dtype=a.dtype, offset=1, count=a.size).reshape(a.shape)
+    raise KeyError(LAYOUT)
+
+
 def f32a(bits, shape=None):
     a = np.array(list(bits), dtype="<u4").view("<f4")
-    return a.reshape(shape) if shape is not None else a
+    return lay(a.reshape(shape) if shape is not None else a)
 
 
 def f64a(bits, shape=None):
     a = np.array(list(bits), dtype="<u8").view("<f8")
-    return a.reshape(shape) if shape is not None else a
+    return lay(a.reshape(shape) if shape is not None else a)
 
 
 def bits32(x):
@@ -273,9 +305,9 @@ def build(kind, fmt, v):
                    translationVector=f32a(v[6]), startTime=f32s(v[2]), flag=Flags(v[7]),
                    format=Data3dBlockFormat(fmt))
         if fmt == 1:
-            d.links = np.array([tuple(x) for x in v[8][2]], dtype=LinkType.btype)
+            d.links = lay(np.array([tuple(x) for x in v[8][2]], dtype=LinkType.btype))
         for label, frames in v[9]:
-            d.add_track(MarkerTrack(txt(label), frames_array(frames, 3)))
+            d.add_track(MarkerTrack(txt(label), lay(frames_array(frames, 3))))
         return d
     if kind == "EM":
         from basictdf.tdfEMG import EMG, EMGBlockFormat, EMGTrack
@@ -286,7 +318,7 @@ def build(kind, fmt, v):
             for i, fr in enumerate(frames):
                 if fr != []:
                     u[i] = fr
-            e.addSignal(EMGTrack(txt(label), a), channel=ch)
+            e.addSignal(EMGTrack(txt(label), lay(a)), channel=ch)
         return e
     if kind == "FT":
         from basictdf.tdfForce3D import ForceTorque3D, ForceTorque3DBlockFormat, ForceTorqueTrack
@@ -294,8 +326,8 @@ def build(kind, fmt, v):
                           translationVector=f32a(v[6]), startTime=f32s(v[2]), format=ForceTorque3DBlockFormat(fmt))
         for label, frames in v[8]:
             a = frames_array(frames, 9)
-            f.add_track(ForceTorqueTrack(txt(label), np.ascontiguousarray(a[:, 0:3]),
-                                         np.ascontiguousarray(a[:, 3:6]), np.ascontiguousarray(a[:, 6:9])))
+            f.add_track(ForceTorqueTrack(txt(label), lay(np.ascontiguousarray(a[:, 0:3])),
+                                         lay(np.ascontiguousarray(a[:, 3:6])), lay(np.ascontiguousarray(a[:, 6:9]))))
         return f
     if kind == "PD":
         from basictdf.tdfForcePlatformsData import (ForcePlatformBlockFormat, ForcePlatformData,
@@ -304,8 +336,8 @@ def build(kind, fmt, v):
                                     format=ForcePlatformBlockFormat(fmt))
         for ch, frames in zip(v[4], v[5]):
             a = frames_array(frames, 6)
-            b.add_platform(ForcePlatformData(np.ascontiguousarray(a[:, 0:2]), np.ascontiguousarray(a[:, 2:5]),
-                                             np.ascontiguousarray(a[:, 5])), channel=ch)
+            b.add_platform(ForcePlatformData(lay(np.ascontiguousarray(a[:, 0:2])), lay(np.ascontiguousarray(a[:, 2:5])),
+                                             lay(np.ascontiguousarray(a[:, 5]))), channel=ch)
         return b
     if kind == "PC":
         from basictdf.tdfForcePlatformsCalibration import (ForcePlatformCalibrationBlockFormat,
@@ -336,7 +368,7 @@ def build(kind, fmt, v):
         from basictdf.tdfTypes import CameraViewPort
         cams = []
         for c in v[6]:
-            vp = CameraViewPort(np.array(c[-1][0], dtype="<i4"), np.array(c[-1][1], dtype="<i4"))
+            vp = CameraViewPort(lay(np.array(c[-1][0], dtype="<i4")), lay(np.array(c[-1][1], dtype="<i4")))
             if fmt == 1:
                 cams.append(SeelabCameraData(f64a(c[0], (3, 3)), f64a(c[1]), f64a(c[2]), f64a(c[3]), f64a(c[4]),
                                              f64a(c[5]), f64a(c[6]), vp))
@@ -344,12 +376,12 @@ def build(kind, fmt, v):
                 cams.append(BTSCameraData(f64a(c[0], (3, 3)), f64a(c[1]), f64a(c[2]), f64a(c[3]), f64a(c[4]),
                                           f64a(c[5]), vp))
         return CalibrationDataBlock(DistorsionModel(v[1]), f32a(v[2]), f32a(v[3], (3, 3)), f32a(v[4]),
-                                    np.array(v[5], dtype="<i2"), cams, format=CalibrationDataBlockFormat(fmt))
+                                    lay(np.array(v[5], dtype="<i2")), cams, format=CalibrationDataBlockFormat(fmt))
     if kind == "OS":
         from basictdf.tdfOpticalSystem import OpticalChannelData, OpticalSetupBlock, OpticalSetupBlockFormat
         from basictdf.tdfTypes import CameraViewPort
         chs = [OpticalChannelData(c[0], txt(c[2]), txt(c[3]), txt(c[4]),
-                                  CameraViewPort(np.array(c[5][0], dtype="<i4"), np.array(c[5][1], dtype="<i4")))
+                                  CameraViewPort(lay(np.array(c[5][0], dtype="<i4")), lay(np.array(c[5][1], dtype="<i4"))))
                for c in v[2]]
         return OpticalSetupBlock(format=OpticalSetupBlockFormat(fmt), channels=chs)
     if kind == "EV":
